@@ -17,8 +17,15 @@ Transcription conventions
  * `std::sort` with `greater<double>` followed by a summation is `sumL (sortDesc l)`: the proofs
    only use that the sorted vector is a permutation;
  * the model follows the repaired code (fix commits in findings/C13.json): the division by the
-   first scale factor is guarded like all the others, and the low-memory class flushes its buffer
-   of log-scales when it is full *before* writing the next one.
+   first scale factor is guarded like all the others; the low-memory class flushes its buffer of
+   log-scales when it is full *before* writing the next one; `NumTools::logsum` of equal arguments;
+   the derivative cache names are forgotten by `fireParameterChanged` / `setBreakPoints`; the second
+   derivative resets `d2Scales_` / `d2LogLik_`; the auto-correlation matrix holds its stationary vector.
+
+Contents: break-point control flow · forward recursions of the three classes · backward recursions
+and posteriors (rescaled, log-sum) · first/second derivative recursions (rescaled) · the cache state
+machines `RescObj` / `LogObj` / `LowObj` with their cache-free specifications · `AutoTM` · the
+specification (`pathSum`, `pathMarginal`, `fwdU`).
 -/
 namespace Bpp.Hmm
 open Bpp Bpp.Scalar
